@@ -2,6 +2,8 @@
 
 GENS = {
     # name: {bin: go command under go/cmd, out: file under coq/Gen, args: [...]}
+    "enums": {"bin": "gen-enums", "out": "Enums.v"},
+    "conv": {"bin": "gen-conv", "out": "Conv.v"},
 }
 
 COMMON_TB = [
@@ -47,6 +49,29 @@ PROPS["C20"] = {
     "level_note": "Trusted: as C01. The interval bound on the real clock is not measured: ticks are injected through a harness-owned ticker, so 'one interval' is checked as 'one tick' (the library's own time.Ticker is assumed to fire).",
     "trusted_base": UP_TB,
     "assumptions": ["connection stays up", "ticks are delivered by the runtime's ticker at the configured interval"],
+}
+
+CODEC_TB = COMMON_TB + [
+    "translators T1 gen-enums (result code / QoS constants and the four switch tables, from message/*.go, encoding/convert and the generated iscp-proto package) and T2 gen-conv (per message type a conversion term in both directions, wire struct field lists, recover flags, byte-count expressions, size gate) - regenerated from /repo on every run; validated on every run by h-codec, which evaluates the GENERATED terms on reflection-generated messages against the real WireToProto/EncodeTo/DecodeFrom",
+    "Section hypothesis (premise of c11_roundtrip / c11_encodings_agree, not an axiom): the third-party byte layer (gogo-protobuf Marshal/Unmarshal, jsonpb) round-trips the proto structure",
+    "modelled rather than verified: encoding/convert (as generated terms), the codec wrappers of encoding/protobuf and encoding/json, encoding.Transport counters; the protobuf/JSON byte parsers are NOT modelled",
+]
+PROPS["C11"] = {
+    "props": "Props/C11.v", "gens": ["enums", "conv"], "harness": [{"bin": "h-codec"}],
+    "technique": "Coq proof (generic inverse-pair round trip by induction on conversion terms + finite obligations by vm_compute over definitions regenerated from the source) + differential correspondence with the real codecs",
+    "level_text": "Machine-checked theorems (Props/C11.v): for ALL conversion terms and values, a syntactic forward/backward pair round-trips every in-range value to its canonical form (durations at wire resolution, UTC times, empty for absent collections); the finite obligations - the two generated converters of all 35 message types are such a pair and mention every field of every wire struct, enum tables total in both directions, byte-count expressions equal buffer lengths - are closed by vm_compute over Gen/Conv.v and Gen/Enums.v, which are REGENERATED from /repo's source on every run (a changed converter changes the obligation). Both encodings decode to the same message under the stated byte-layer hypothesis. The generated terms are validated on every run against the real EncodeTo/DecodeFrom/WireToProto on ~1300 reflection-generated messages (every field path and alternative forced once, random and hostile contents), protobuf and JSON, including reported byte counts and Transport counters.",
+    "level_note": "Trusted: Coq kernel + vm_compute, the translators, the harness. The protobuf/jsonpb byte layer is a hypothesis of the theorems (validated by the differential run, not proved).",
+    "trusted_base": CODEC_TB,
+    "assumptions": ["pb_unmarshal_marshal: the generated protobuf/jsonpb marshal-unmarshal round-trips proto structures (premise of c11_roundtrip)",
+                    "domain of the round trip (in_range): durations within the wire range, 16-byte uuids, times within int64 nanoseconds, declared enum constants, required oneofs present"],
+}
+PROPS["C19"] = {
+    "props": "Props/C19.v", "gens": [], "harness": [{"bin": "h-multi"}],
+    "technique": "Coq proof (invariants by induction over arbitrary histories of select/write/member-read/close events) + differential correspondence of the Gallina model with transport/multi",
+    "level_text": "Machine-checked theorems (Props/C19.v) over the executable model of multi.Transport: for every configuration and history, each Write goes to the member selected last among member ids (initially the configured one), the returned messages are the members' messages each once with per-member order kept, Close closes every member, counters are the sums, an initial id that is not a member is rejected and a scheduler id that is not a member (incl. the empty id) is ignored so that no later Write/AsUnreliable/NegotiationParams can panic; the round-robin and last-used pollers as written. Tied to the code on every run: ~1200 histories on the real multi.NewTransport with scripted members and schedulers (polling with real pollers, event driven, the real NIC subscriber with a scripted listener), every member log, return code, counter and lookup compared with the model inside Coq, and the predicate c19_ok evaluated on the implementation's own trace.",
+    "level_note": "Trusted: Coq kernel + vm_compute, the hand model (validated differentially), the harness' synchronisation discipline (selections re-emitted until applied). The arrival order across members in the merge queue is the runtime's (compared as per-member subsequences).",
+    "trusted_base": COMMON_TB + ["modelled rather than verified: transport/multi transport.go, polling/event schedulers, pollers (hand model Model/Multi.v, tied by differential execution); goroutine scheduling of the per-member readers is represented by the order of MemberRead events"],
+    "assumptions": ["member transports are FIFO and deliver what they accepted"],
 }
 
 NOT_APPLICABLE = {}
